@@ -1045,6 +1045,24 @@ def _immutable_expr(fn, e, at, depth=0):
     return False
 
 
+def _returns_package_object(proj, fi, rets):
+    """a return value that is an instance of a numqi class, or the result of a numqi function that builds arrays"""
+    for r in rets:
+        vals = [r.value]
+        if isinstance(r.value, ast.Name):
+            vals = [v for v, st, p in reaching_defs(fi.node, r.value.id, r) if v != 'param' and isinstance(v, ast.AST)]
+        for v in vals:
+            if isinstance(v, ast.Call):
+                rr = resolve_callee(proj, fi.module, v)
+                if rr.kind == 'class':
+                    return True
+                if rr.kind == 'func':
+                    src = ast.unparse(rr.node.node)
+                    if 'np.' in src or 'torch.' in src:
+                        return True
+    return False
+
+
 def mc3(proj, rep, modules=None):
     from .ownership import cached_functions
     rep.rule('MC3', RULE_MC3)
@@ -1067,11 +1085,69 @@ def mc3(proj, rep, modules=None):
         rets = [r for r in ast.walk(fi.node) if isinstance(r, ast.Return) and r.value is not None]
         if rets and all(_immutable_expr(fi.node, r.value, r) for r in rets):
             rep.ok('MC3', q, 'new memo of an immutable value', m, fi.node, text=f'{q} memo')
-        elif 'np.' in src or 'torch.' in src or 'numpy.' in src:
-            rep.violation('MC3', q, f'not in the reviewed set of memoised functions, decorated `{how[:40]}`, returns an array-valued result unfrozen '
+        elif 'np.' in src or 'torch.' in src or 'numpy.' in src or _returns_package_object(proj, fi, rets):
+            rep.violation('MC3', q, f'not in the reviewed set of memoised functions, decorated `{how[:40]}`, returns an array-valued / mutable object unfrozen '
                           f'(`{ast.unparse(rets[0])[:40] if rets else "?"}`): all callers with equal arguments share one mutable object', m, fi.node, text=f'{q} memo')
         else:
             rep.ok('MC3', q, 'new memo; no array evidence in the body', m, fi.node, text=f'{q} memo')
     # the reviewed names must still exist (a renamed cache is re-reviewed, not silently dropped)
     rep.count('MC3.memoised_functions', n)
     return n
+
+
+# ------------------------------------------------------------------------------------------------ PR1 / E6
+RULE_PR1 = ('PR1: integer bit weights (`1 << arange(k)`, `2 ** arange(k)`) and the index they build stay in integer arithmetic: a cast to a floating dtype '
+            '(`astype(np.float64)` for a BLAS matmul) keeps 53 bits, so every index of 2^53 and above (27 qubits) is rounded and the conversion is no longer '
+            'injective.')
+RULE_E6 = ('E6: the number of qubits of a batch of Pauli strings is the length of its strings (`len(x[0])`), never the storage width of the unicode dtype '
+           '(`dtype.itemsize`): an array allocated wider than its strings (dtype U8 holding "XZ") is NUL padded, and the padding would be read as trailing '
+           'identity letters.')
+
+
+def pr1_e6(proj, rep, modules):
+    rep.rule('PR1', RULE_PR1)
+    rep.rule('E6', RULE_E6)
+    n = n6 = 0
+
+    def is_weights(e):
+        return any(isinstance(b, ast.BinOp) and ((isinstance(b.op, ast.LShift) and isinstance(b.left, ast.Constant) and b.left.value == 1) or
+                                                 (isinstance(b.op, ast.Pow) and isinstance(b.left, ast.Constant) and b.left.value in (2, 4)))
+                   and any(isinstance(c, ast.Call) and ast.unparse(c.func).endswith('arange') for c in ast.walk(b.right)) for b in ast.walk(e))
+    for fi in proj.iter_functions():
+        m = fi.module
+        if not _in_scope(m, modules):
+            continue
+        wnames = {}
+        for s in ast.walk(fi.node):
+            if isinstance(s, ast.Assign) and isinstance(s.targets[0], ast.Name) and is_weights(s.value):
+                wnames[s.targets[0].id] = s
+        for s in ast.walk(fi.node):
+            if isinstance(s, ast.Assign) and is_weights(s.value) or (isinstance(s, ast.Expr) and is_weights(s.value)):
+                n += 1
+                rep.touch(m)
+                fl = [c for c in ast.walk(s.value) if isinstance(c, ast.Call) and isinstance(c.func, ast.Attribute) and c.func.attr == 'astype' and c.args
+                      and 'float' in ast.unparse(c.args[0])]
+                fl += [k for c in ast.walk(s.value) if isinstance(c, ast.Call) for k in c.keywords if k.arg == 'dtype' and 'float' in ast.unparse(k.value)]
+                if fl:
+                    rep.violation('PR1', fi.qual, f'`{ast.unparse(s)[:80]}`: the bit weights are cast to a floating dtype; indices from 2^53 on are rounded', m, s)
+                else:
+                    rep.ok('PR1', fi.qual, f'`{ast.unparse(s)[:50]}` integer bit weights', m, s)
+        # weights used later through a float cast
+        for c in ast.walk(fi.node):
+            if isinstance(c, ast.Call) and isinstance(c.func, ast.Attribute) and c.func.attr == 'astype' and c.args and 'float' in ast.unparse(c.args[0]) \
+                    and isinstance(c.func.value, ast.Name) and c.func.value.id in wnames:
+                rep.violation('PR1', fi.qual, f'`{ast.unparse(c)[:60]}`: the bit weights `{c.func.value.id}` are cast to a floating dtype; indices from 2^53 on are rounded', m, c)
+        # E6
+        unicode_fn = any(isinstance(x, ast.Compare) and "kind=='U'" in ast.unparse(x).replace(' ', '').replace('"', "'") for x in ast.walk(fi.node))
+        if unicode_fn:
+            n6 += 1
+            rep.touch(m)
+            hits = [x for x in ast.walk(fi.node) if isinstance(x, ast.Attribute) and x.attr == 'itemsize']
+            if hits:
+                rep.violation('E6', fi.qual, f'`{ast.unparse(_stmt(hits[0]))[:70]}` reads the storage width of the unicode dtype: NUL padding of a wider array is counted as '
+                              f'qubits (every index is multiplied by 4^(width-n))', m, hits[0])
+            else:
+                rep.ok('E6', fi.qual, 'string length taken from the strings, not from the dtype width', m, fi.node, text=f'{fi.qual} unicode width')
+    rep.count('PR1.bit_weight_sites', n)
+    rep.count('E6.unicode_batch_functions', n6)
+    return n, n6
